@@ -311,22 +311,34 @@ Proof.
   { rewrite Ea. replace (hz + 1) with (Z.of_nat (S h)) by (unfold hz; lia). apply count_ones_mul_pow2. exact Hq. }
   pose proof (count_ones_nonneg q) as Cq. pose proof (count_ones_nonneg (n - a - 2 ^ hz)) as Cr.
   pose proof (count_ones_lt64 n ltac:(lia)) as Cn.
+  (* ones of n at or above bit hz (the spelling `(n & !mask).count_ones()` / `(n >> h).count_ones()`) *)
+  assert (K1 : count_ones (n / 2 ^ hz) = count_ones q + 1).
+  { pose proof (count_ones_split h n ltac:(lia)) as S. fold hz in S. rewrite M3 in S. lia. }
+  pose proof (count_ones_nonneg a) as Ca.
   unfold leaf_index_to_mt_index_and_peak_index_ok, leaf_index_to_mt_index_and_peak_index. cbv zeta.
   unfold ilog2. rewrite ?(Z.lxor_comm n i). rewrite XL.
-  assert (E2 : wrap 64 (2 ^ hz) = 2 ^ hz) by (apply wrap_small; lia). rewrite E2.
-  assert (E3 : wsub 64 (2 ^ hz) 1 = 2 ^ hz - 1) by (apply wsub64_small; lia). rewrite E3.
-  rewrite land_ones_mod by lia. rewrite M1.
-  rewrite (Z.land_comm n), land_ones_mod by lia. rewrite M3.
-  assert (E6 : wadd 64 (i - a) (2 ^ hz) = i - a + 2 ^ hz) by (apply wadd64_small; lia). rewrite E6.
-  assert (E7 : wsub 32 (count_ones n) (count_ones (n - a - 2 ^ hz)) = count_ones q + 1)
-    by (rewrite wsub32_small by (pow_lits; lia); lia). rewrite E7.
-  assert (E8 : wsub 32 (count_ones q + 1) 1 = count_ones q) by (rewrite wsub32_small by (pow_lits; lia); lia).
-  rewrite E8. rewrite C2.
+  (* normalise the bit-level spellings; every step is optional (`?`), so the script does not depend on which of the
+     equivalent forms the source uses: 2u64.pow(h) or 1 << h;  mask & x or x & mask;  x + 2^h or x | 2^h (either order);
+     ones(n) - ones(n & mask) - 1,  ones(n & !mask) - 1  or  ones(n >> h) - 1 *)
+  rewrite ?(wshl64_1 hz) by lia.
+  assert (E2 : wrap 64 (2 ^ hz) = 2 ^ hz) by (apply wrap_small; lia). rewrite ?E2.
+  assert (E3 : wsub 64 (2 ^ hz) 1 = 2 ^ hz - 1) by (apply wsub64_small; lia). rewrite ?E3.
+  unfold wnot, wshr.
+  assert (K0 : count_ones (Z.land n (2 ^ 64 - 1 - (2 ^ hz - 1))) = count_ones (n / 2 ^ hz))
+    by (apply (count_ones_above h n); lia).
+  rewrite ?K0.
+  rewrite ?(land_ones_mod hz), ?(land_ones_mod' hz) by lia. rewrite ?M1, ?M3.
+  rewrite ?(lor_pow2_low hz (i - a)), ?(lor_low_pow2 hz (i - a)) by lia.
+  rewrite ?K1.
+  (* what is left is word arithmetic on  i - a,  2^hz  and the popcounts, which are abstracted *)
+  unfold shift_ok, sub_ok, add_ok, wadd, wsub, wrap.
+  generalize dependent (count_ones n). generalize dependent (count_ones (n - a - 2 ^ hz)).
+  generalize dependent (count_ones q). generalize dependent (count_ones a).
+  intros ca Ca cq C2 Cq cr Cr cn C1 Cn.
+  set (p := 2 ^ hz) in *. clearbody p. pow_lits.
   split.
-  - unfold sub_ok, add_ok.
-    destruct (Z.ltb_spec i n); [|lia]. destruct (Z.ltb_spec 0 (Z.lxor i n)); [|lia].
-    destruct (Z.ltb_spec (2 ^ hz) (2 ^ 64)); [|lia]. cbn [andb]. pow_lits. lia.
-  - f_equal. f_equal. lia.
+  - repeat (apply andb_true_intro; split); lia.
+  - f_equal. f_equal; lia.
 Qed.
 
 (* ================================================================== node count *)
@@ -384,3 +396,45 @@ Proof.
   rewrite E1. rewrite wsub32_small by (pow_lits; lia).
   unfold add_ok, sub_ok. pow_lits. split; [lia|lia].
 Qed.
+
+(* ================================================================== the local model of the MMR routines *)
+From TF Require MmrIdxLocal.
+
+(* the hand-written model of the same function (model/MmrIdxLocal.v, used by the C05/C11/C12 model) against the forest
+   specification, by the same route; the tie below then goes through the SPECIFICATION and does not depend on how the
+   source spells the function *)
+Lemma li_mt_pk_forest n i : 0 <= i < n -> n < 2 ^ 64 ->
+  spec_mt_index_and_peak_index n i = MmrIdxLocal.li_mt_pk i n.
+Proof.
+  intros Hi Hn. unfold spec_mt_index_and_peak_index, forest.
+  destruct (find_leaf_spec 64 n 0 0 i 0 ltac:(rewrite tleafs_64; lia) ltac:(lia))
+    as (h & a & q & E & Hh & Hq & Ea & Hna & Hia).
+  rewrite E. cbn [pt_height pt_offset pt_first_leaf]. rewrite t_leaf_mt_val by lia.
+  rewrite Z.sub_0_r in Hia. rewrite !Z.add_0_l.
+  rewrite <- tleafs_S in Ea. rewrite tleafs_pow in *.
+  rewrite Nat2Z.inj_succ, <- Z.add_1_r in Ea.
+  assert (Hh' : 0 <= Z.of_nat h < 64) by lia.
+  set (hz := Z.of_nat h) in *.
+  pose proof (pow2_pos hz ltac:(lia)) as Hp.
+  assert (Hp64 : 2 ^ hz < 2 ^ 64) by (apply pow2_lt; lia).
+  rewrite <- (pow2_succ hz) in Hna by lia.
+  destruct (tree_position_bits hz q a i n ltac:(lia) Hq Ea Hia Hna) as (D1 & D2 & B1 & B2 & M1 & M2 & M3).
+  destruct (log2_lxor_char hz i n ltac:(lia) ltac:(lia) ltac:(lia) ltac:(congruence) B1 B2) as [X0 XL].
+  pose proof (pow2_succ hz ltac:(lia)) as Hps.
+  assert (Hp65 : 2 ^ (hz + 1) <= 2 ^ 64) by (apply pow2_le; lia).
+  (* popcounts *)
+  assert (C1 : count_ones n = count_ones q + 1 + count_ones (n - a - 2 ^ hz)).
+  { rewrite (count_ones_split (S h) n) by lia. rewrite Nat2Z.inj_succ, <- Z.add_1_r. fold hz.
+    rewrite D2, M2.
+    assert (R : n - a = 2 ^ Z.of_nat h + (n - a - 2 ^ hz)) by (unfold hz; lia). rewrite R at 1.
+    rewrite count_ones_pow2_add by (fold hz; lia). lia. }
+  assert (C2 : count_ones a = count_ones q).
+  { rewrite Ea. replace (hz + 1) with (Z.of_nat (S h)) by (unfold hz; lia). apply count_ones_mul_pow2. exact Hq. }
+  pose proof (count_ones_nonneg q) as Cq. pose proof (count_ones_nonneg (n - a - 2 ^ hz)) as Cr.
+  pose proof (count_ones_lt64 n ltac:(lia)) as Cn.
+  unfold MmrIdxLocal.li_mt_pk. destruct (Z.ltb_spec i n) as [_|]; [|lia]. cbv zeta.
+  rewrite ?(Z.lxor_comm n i). rewrite XL.
+  rewrite (land_ones_mod hz) by lia. rewrite (land_ones_mod' hz) by lia. rewrite M1, M3.
+  f_equal. f_equal; lia.
+Qed.
+
